@@ -302,8 +302,13 @@ class Interpreter(BaseInterpreter[TContext, TEvent]):
         #    loop, which lets that child's own managing task run its `finally`
         #    and pop itself from `self._actors` — mutating the dict mid-loop
         #    and raising "dictionary changed size during iteration".
+        registry = self._system_registry()
         for actor in list(self._actors.values()):
             await actor.stop()
+            # 🌐 A stopped actor must not stay addressable by systemId.
+            for system_id, registered in list(registry.items()):
+                if registered is actor:
+                    del registry[system_id]
         self._actors.clear()
 
         # ❌ Cancel all background tasks (timers, services) owned by this interpreter.
